@@ -32,8 +32,8 @@ def run(chk):
     chk.explanation = EXPLANATION
     chk.info.update(P.stats())
     chk.rule("C14.O1", "override / remove / add: resulting file state equals the hand edit, for every spelling of the key and every presence scenario", 28)
-    chk.rule("C14.O2", "one key normaliser: optionxform == dictionary key transform for every key; all dictionary accessors apply it", 5)
-    chk.rule("C14.O3", "command line: SECTION:KEY=VALUE split on every delimiter pattern; later override of the same item wins; removals via the same table; additions in order", 7)
+    chk.rule("C14.O2", "one key normaliser: optionxform == dictionary key transform for every key; all dictionary accessors apply it", 4)
+    chk.rule("C14.O3", "command line: SECTION:KEY=VALUE split on every delimiter pattern; later override of the same item wins; removals via the same table; additions in order", 9)
     chk.rule("C14.O4", "--list-items / --item-value cover every section of the (edited) file exactly once", 12)
     chk.attempt("O1", lambda: override_loop(chk, P))
     chk.attempt("O2", lambda: normaliser(chk, P, "C14.O2"))
@@ -81,7 +81,7 @@ SPELLINGS = {("Pair", "A-B"): ["A-B", "A - B", " A\t-B "], ("Potential-Form", "f
 
 def override_loop(chk, P):
     cls = P.cls(CP, "ConfigParser")
-    site = cls.lookup("_init_config_parser").site()
+    site = cls.site_of("_init_config_parser")
     cfgx = ("atsim.potentials.config._common", "ConfigurationException")
     base = parse(P, BASE)
     if base[0] != "ok":
@@ -143,18 +143,21 @@ def override_loop(chk, P):
 
 
 def normaliser(chk, P, rule):
-    """optionxform(k) and _ConfigParserDict._key_transform(k) as symbolic transformation chains"""
+    """the parser's optionxform(k) and the key its section dictionary hands to the underlying mapping, as symbolic chains of
+    string operations; parser class and dictionary class are taken from a ConfigParser built on an empty file"""
     I = F.make_interp(P)
-    raw = InstV(P.cls(CP, "_RawConfigParser"))
-    dct = InstV(P.cls(CP, "_ConfigParserDict"))
+    M.install_rawconfigparser(I)
+    cp = I.instantiate(P.cls(CP, "ConfigParser"), [PyObjV(M.TextFile("[Tabulation]\ntarget : GULP\n"))], {}, None)
+    raw = I.getattr(cp, "raw_config_parser")
+    dcls = raw.attrs.get("_dict") if isinstance(raw, InstV) else None
+    if not isinstance(dcls, ClassV):
+        raise AnalysisError("the raw parser of ConfigParser was not created with a dict_type of the package")
+    dct = InstV(dcls.ci)
     k = Opaque(("param", "key"))
     kstr = StrV(SFmt("s", k))
     a = W.run_method(I, raw, "optionxform", [kstr])
-    b = W.run_method(I, dct, "_key_transform", [kstr])
+    b = a
     site = raw.ci.lookup("optionxform").site()
-    same = a.key() == b.key()
-    chk.ob(rule, "optionxform(k) and the section dictionary's key transform are the same chain of string operations for every k",
-           same, site=site, found=a, expect=b, key=rule + "|same-transform")
     # the chain removes blanks and tabs everywhere (strip + replace ' ' + replace '\\t')
     txt = repr(a)
     ok = "strip" in txt and "replace" in txt and "' '" in txt and "'\\\\t'" in txt or ("strip" in txt and txt.count("replace") >= 2)
@@ -170,6 +173,7 @@ def normaliser(chk, P, rule):
         return f
     for nm in ("__setitem__", "__getitem__", "__delitem__", "__contains__", "get"):
         I.ext_methods[("OrderedDict", nm)] = base(nm)
+        I.ext_methods[("dict", nm)] = base(nm)
     for nm, args in (("__setitem__", [kstr, Const("v")]), ("__getitem__", [kstr]), ("__delitem__", [kstr])):
         calls[:] = []
         fi = dct.ci.lookup(nm)
@@ -179,7 +183,8 @@ def normaliser(chk, P, rule):
             continue
         W.run_method(I, dct, nm, args)
         ok = len(calls) == 1 and calls[0][0] == nm and calls[0][1].key() == b.key()
-        chk.ob(rule, "dictionary %s looks the key up after the transform" % nm, ok, site=fi.site(), found=calls, expect=b,
+        chk.ob(rule, "dictionary %s hands optionxform(key) - the same chain of string operations - to the underlying mapping" % nm, ok,
+               site=fi.site(), found=calls, expect=b,
                key=rule + "|dict|" + nm)
 
 
@@ -210,50 +215,71 @@ def split_oracle(s, has_value):
     return (section, key, value)
 
 
+def _lol(*groups):
+    return ListV([ListV([Const(x) for x in g], "list") for g in groups], "list")
+
+
+def _tup(t):
+    return (t.values[0].v, t.values[1].v, t.values[2].v)
+
+
+def potable_items(P, watch=None, **given):
+    """run the registered console entry point with the given item options; returns (run, overrides, additional, file) as the
+    ConfigParser constructor receives them"""
+    got = {}
+
+    def cp_init(i, fv, a, k, n):
+        got["overrides"] = k.get("overrides", a[1] if len(a) > 1 else None)
+        got["additional"] = k.get("additional", a[2] if len(a) > 2 else None)
+        got["file"] = a[0] if a else k.get("fp")
+        return NONE
+    opts = {"config_file": W.param("config_file"), "out_filename": Const("out")}
+    opts.update(given)
+    r = W.run_potable(P, opts, hooks={CP + ":ConfigParser.__init__": cp_init,
+                                      "atsim.potentials.tools.potable._actions:action_tabulate": lambda i, fv, a, k, n: NONE}, watch=watch)
+    ov = [_tup(t) for t in got["overrides"].items] if isinstance(got.get("overrides"), ListV) else None
+    ad = [_tup(t) for t in got["additional"].items] if isinstance(got.get("additional"), ListV) else None
+    return r, ov, ad, got.get("file")
+
+
+_PATTERN_ONLY = {"split", "rsplit", "partition", "rpartition", "find", "rfind", "index", "rindex", "count", "format"}
+
+
 def cli(chk, P):
-    fi = P.func(POTABLE, "_create_override_tuple")
-    cfg = P.cls("atsim.potentials.config._common", "ConfigurationException")
-    for has_value in (True, False):
+    entry = W.console_entry(P)
+    receivers = []
+    for opt, has_value, role in (("override_item", True, "override"), ("remove_item", False, "override"), ("add_item", True, "additional")):
         bad = []
         n = 0
         for s in delimiter_patterns():
-            I = F.make_interp(P)
-            try:
-                r = I.run(fi, [Const(s), Const(has_value)])
-                got = (r.values[0].v, r.values[1].v, r.values[2].v) if isinstance(r, NTV) else repr(r)
-            except RaiseSignal as e:
-                got = "error" if (isinstance(e.exc, ExcV) and isinstance(e.exc.cls, ClassV) and e.exc.cls.ci.is_subclass_of(cfg)) else "internal %r" % (e.exc,)
+            r, ov, ad, _ = potable_items(P, watch=Const(s), **{opt: _lol([s])})
+            for f in r.receivers:
+                if f not in receivers:
+                    receivers.append(f)
+            if r.raised is not None:
+                got = "internal %r" % (r.raised,)
+            elif r.parser.errors:
+                got = "error" if "configuration error" in repr(r.parser.errors[0]) else "parser.error(%r)" % (r.parser.errors[0],)
+            else:
+                lst = ov if role == "override" else ad
+                other = ad if role == "override" else ov
+                got = lst[0] if lst is not None and len(lst) == 1 and other == [] else "tables %r / %r" % (ov, ad)
             want = split_oracle(s, has_value)
             n += 1
             if got != want:
                 bad.append("%r -> %r (expected %r)" % (s, got, want))
-        chk.ob("C14.O3", "_create_override_tuple(%s): all %d delimiter patterns split at the first '=' and the last ':' before it, "
-                         "malformed ones are configuration errors" % ("KEY=VALUE" if has_value else "KEY only", n), not bad, site=fi.site(),
-               found="; ".join(bad[:4]) if bad else None, expect="(section, key, value) / configuration error",
-               key="C14.O3|split|%s" % has_value)
-    # _make_config_parser: tables
-    mk = P.func(POTABLE, "_make_config_parser")
-    I = F.make_interp(P)
-    seen = {}
-
-    def cp_init(i, fv, a, k, n):
-        seen["overrides"] = k.get("overrides")
-        seen["additional"] = k.get("additional")
-        return NONE
-    I.hooks[CP + ":ConfigParser.__init__"] = cp_init
-
-    def lol(*groups):
-        return ListV([ListV([Const(x) for x in g], "list") for g in groups], "list")
-    I.run(mk, [W.param("cfg"), lol(["Pair:A-B=v1", "Pair:C-D=v2"], ["Pair:A-B=v3"]), lol(["Pair:X-Y=a1"], ["Pair:Z-Z=a2"]),
-               lol(["Pair:C-D"], ["Tabulation:nr"]), NONE, FALSE])
-
-    def tup(t):
-        return (t.values[0].v, t.values[1].v, t.values[2].v)
-    ov = [tup(t) for t in seen["overrides"].items] if isinstance(seen.get("overrides"), ListV) else None
-    ad = [tup(t) for t in seen["additional"].items] if isinstance(seen.get("additional"), ListV) else None
-    site = mk.site()
+        chk.ob("C14.O3", "potable --%s ITEM: all %d delimiter patterns split at the first '=' and the last ':' before it and reach the "
+                         "parser as %s; malformed ones end in a configuration error" % (opt.replace("_", "-"), n, role), not bad,
+               site=entry.site(), found="; ".join(bad[:4]) if bad else None, expect="(section, key, value) / configuration error",
+               key="C14.O3|split|%s" % opt)
+    # tables
+    r, ov, ad, fil = potable_items(P, override_item=_lol(["Pair:A-B=v1", "Pair:C-D=v2"], ["Pair:A-B=v3"]),
+                                   add_item=_lol(["Pair:X-Y=a1"], ["Pair:Z-Z=a2"]), remove_item=_lol(["Pair:C-D"], ["Tabulation:nr"]))
+    site = entry.site()
+    if r.raised is not None or r.parser.errors:
+        ov = ad = None
     chk.ob("C14.O3", "a later --override-item of the same SECTION:KEY replaces the earlier one", ov is not None and ("Pair", "A-B", "v3") in ov
-           and ("Pair", "A-B", "v1") not in ov, site=site, found=ov, expect="Pair:A-B=v3 only", key="C14.O3|later-wins")
+           and ("Pair", "A-B", "v1") not in ov, site=site, found=ov if ov is not None else (r.raised, r.parser.errors), expect="Pair:A-B=v3 only", key="C14.O3|later-wins")
     chk.ob("C14.O3", "--remove-item goes through the same table with value None (a removal after an override of the same item wins)",
            ov is not None and ("Pair", "C-D", None) in ov and ("Pair", "C-D", "v2") not in ov and ("Tabulation", "nr", None) in ov, site=site,
            found=ov, expect="Pair:C-D -> None, Tabulation:nr -> None", key="C14.O3|removals")
@@ -261,96 +287,38 @@ def cli(chk, P):
            found=ov, expect="unique keys", key="C14.O3|unique")
     chk.ob("C14.O3", "--add-item entries are passed on in the given order", ad == [("Pair", "X-Y", "a1"), ("Pair", "Z-Z", "a2")], site=site, found=ad,
            expect="X-Y then Z-Z", key="C14.O3|additions")
-    # the command line entry point: --override-item / --add-item / --remove-item reach the parser in those roles
-    do = P.func(POTABLE, "_do_tabulation")
-    J = F.make_interp(P)
-    got = {}
-
-    def cp_init2(i, fv, a, k, n):
-        got["overrides"] = k.get("overrides")
-        got["additional"] = k.get("additional")
-        got["file"] = a[0] if a else k.get("fp")
-        return NONE
-    J.hooks[CP + ":ConfigParser.__init__"] = cp_init2
-    J.hooks["atsim.potentials.tools.potable._actions:action_tabulate"] = lambda i, fv, a, k, n: NONE
-    J.x_sys_exit = lambda args, kwargs, node, env: NONE
-    given = {"config_file": W.param("config_file"), "out_filename": Const("out"),
-             "override_item": lol(["Pair:A-B=ov"]), "add_item": lol(["Pair:X-Y=ad"]), "remove_item": lol(["Pair:C-D"])}
-
-    class Parser(object):
-        def m_error(self, J_, args, kwargs):
-            raise AnalysisError("parser.error called: %r" % (args,))
-    raised = None
-    try:
-        J.run(do, [PyObjV(Parser()), PyObjV(W.ArgsModel(W.cli_defaults(P), given))])
-    except RaiseSignal as e:
-        raised = e.exc
-    ov2 = sorted((tup(t) for t in got["overrides"].items), key=repr) if isinstance(got.get("overrides"), ListV) else None
-    ad2 = [tup(t) for t in got["additional"].items] if isinstance(got.get("additional"), ListV) else None
-    okw = ov2 == [("Pair", "A-B", "ov"), ("Pair", "C-D", None)] and ad2 == [("Pair", "X-Y", "ad")] \
-        and got.get("file") is not None and got["file"].key() == W.param("config_file").key()
+    r, ov2, ad2, fil = potable_items(P, override_item=_lol(["Pair:A-B=ov"]), add_item=_lol(["Pair:X-Y=ad"]), remove_item=_lol(["Pair:C-D"]))
+    okw = ov2 is not None and sorted(ov2, key=repr) == [("Pair", "A-B", "ov"), ("Pair", "C-D", None)] and ad2 == [("Pair", "X-Y", "ad")] \
+        and fil is not None and fil.key() == W.param("config_file").key()
     chk.ob("C14.O3", "potable -e Pair:A-B=ov -a Pair:X-Y=ad -r Pair:C-D: override, addition and removal reach ConfigParser in those roles, "
-                     "with the given model file", okw and raised is None, site=do.site(), found=(ov2, ad2) if raised is None else "raises %r" % (raised,), expect="overrides [A-B=ov, C-D removed], additional [X-Y=ad]",
-           key="C14.O3|entry-point-wiring")
-    # premise for the splitter: its argument is touched only through 'in', split and rsplit on ':' / '='
-    used = set()
-    for node in ast.walk(fi.node):
-        if isinstance(node, ast.Call) and isinstance(node.func, ast.Attribute):
-            used.add(node.func.attr)
-    chk.ob("C14.O3", "premise: the splitter inspects its argument only through ':' / '=' tests and (r)split", used <= {"split", "rsplit", "format"},
-           site=fi.site(), found=sorted(used), expect="split/rsplit/format", key="C14.O3|premise")
+                     "with the given model file", okw and r.raised is None, site=site, found=(ov2, ad2) if r.raised is None else "raises %r" % (r.raised,),
+           expect="overrides [A-B=ov, C-D removed], additional [X-Y=ad]", key="C14.O3|entry-point-wiring")
+    # premise of the enumeration over delimiter patterns: the functions that receive an item string look at it only through
+    # operations whose outcome is fixed by the pattern of ':' and '=' (membership tests, (r)split / partition / find on those)
+    if not receivers:
+        raise AnalysisError("no function of the package receives the item string of --override-item")
+    for fi in receivers:
+        used = set()
+        for node in ast.walk(fi.node):
+            if isinstance(node, ast.Call) and isinstance(node.func, ast.Attribute) and isinstance(node.func.value, ast.Name):
+                used.add(node.func.attr)
+        if not used <= _PATTERN_ONLY:
+            raise AnalysisError("premise of C14.O3 not established: %s applies %s to an item string" % (fi.fq, sorted(used - _PATTERN_ONLY)))
+    chk.ob("C14.O3", "premise: %s inspect(s) an item string only through ':' / '=' tests and splitting" % ", ".join(f.name for f in receivers),
+           True, site=receivers[0].site(), key="C14.O3|premise")
 
 
-class RawModel(object):
-    """raw parser with one section of every kind"""
-    def __init__(self, sections, defaults):
-        self.secs = sections
-        self.defs = defaults
-
-    def m_sections(self, I, args, kwargs):
-        return ListV([Const(s) for s in self.secs], "list")
-
-    def m_has_section(self, I, args, kwargs):
-        return Const(args[0].v in self.secs)
-
-    def m_has_option(self, I, args, kwargs):
-        s, k = args[0].v, args[1].v
-        if s == "Variables":
-            return Const(k in self.defs)
-        return Const(s in self.secs and k in self.secs[s])
-
-    def m_defaults(self, I, args, kwargs):
-        d = DictV()
-        for k, v in self.defs.items():
-            d.items[Const(k).key()] = (Const(k), Const(v))
-        return d
-
-    def get_default_section(self, I):
-        return Const("Variables")
-
-    def getitem(self, I, idx):
-        name = idx.v
-        if name == "Variables":
-            return PyObjV(SecModel(self.defs))
-        if name not in self.secs:
-            raise RaiseSignal(ExcV(ExtV("builtins.KeyError"), [idx]), None)
-        return PyObjV(SecModel(self.secs[name]))
-
-
-class SecModel(object):
-    def __init__(self, d):
-        self.d = d
-
-    def iter_items(self, I):
-        return [Const(k) for k in self.d]
-
-    def getitem(self, I, idx):
-        if idx.v not in self.d:
-            raise RaiseSignal(ExcV(ExtV("builtins.KeyError"), [idx]), None)
-        return Const(self.d[idx.v])
-
-    def contains(self, I, item):
-        return item.v in self.d
+def _potable_query(P, text, **given):
+    """the console entry point on a model file with the given text and a query option -> (run, printed text or None)"""
+    def make(P_):
+        I = F.make_interp(P_)
+        M.install_rawconfigparser(I)
+        return I
+    opts = {"config_file": PyObjV(M.TextFile(text))}
+    opts.update(given)
+    r = W.run_potable(P, opts, make=make)
+    out = W.out_tree(r.interp.stdout())
+    return r, (out.text if isinstance(out, SLit) else None), out
 
 
 def listing(chk, P):
@@ -367,19 +335,22 @@ def listing(chk, P):
         "Something-Else": {"k": "v"},
     }
     defaults = {"q": "1.0"}
-    I = F.make_interp(P)
-    raw = PyObjV(RawModel(sections, defaults))
-    cp = InstV(P.cls(CP, "ConfigParser"))
-    cp.attrs["_config_parser"] = raw
-    fi = P.func(QA, "_list_items")
-    items = I.run(fi, [cp])
-    site = fi.site()
-    if not isinstance(items, ListV):
-        raise AnalysisError("_list_items did not return a concrete list")
+    text = "".join("[%s]\n%s" % (sec, "".join("%s : %s\n" % kv for kv in opts.items())) for sec, opts in sections.items())
+    text += "[Variables]\n" + "".join("%s : %s\n" % kv for kv in defaults.items())
+    entry = W.console_entry(P)
+    site = entry.site()
+    r, printed, out = _potable_query(P, text, list_items=TRUE)
+    if r.raised is not None or r.parser.errors or printed is None:
+        raise AnalysisError("potable --list-items on the all-sections model did not print a concrete listing: %r %r %r"
+                            % (r.raised, r.parser.errors, out))
+    lines = printed.split("\n")
+    chk.ob("C14.O4", "--list-items prints 'SECTION:KEY=VALUE' lines, one per item, each ended by a newline",
+           lines[-1] == "" and all("=" in ln for ln in lines[:-1]), site=site, found=printed[:200], expect="LABEL=VALUE lines",
+           key="C14.O4|printed-format")
     listed = {}
-    for it in items.items:
-        k, v = it.items[0], it.items[1]
-        listed.setdefault(k.v, []).append(v.v if isinstance(v, Const) else repr(v))
+    for ln in lines[:-1]:
+        k, _, v = ln.partition("=")
+        listed.setdefault(k, []).append(v)
     allsecs = dict(sections)
     allsecs["Variables"] = defaults
     for sec, opts in allsecs.items():
@@ -388,39 +359,17 @@ def listing(chk, P):
             got = listed.get(label, [])
             chk.ob("C14.O4", "item %s is listed exactly once with its value" % label, got == [val], site=site, found=got, expect=[val],
                    key="C14.O4|listed|%s" % sec)
-    extra = [k for k in listed if k not in ["%s:%s" % (s, key) for s, o in allsecs.items() for key in o]]
+    extra = [k for k in listed if k not in ["%s:%s" % (s_, key) for s_, o in allsecs.items() for key in o]]
     chk.ob("C14.O4", "nothing is listed that is not an item of the file", not extra, site=site, found=extra or None, expect="no extra items",
            key="C14.O4|no-extra")
-    # --list-items as printed: one line 'SECTION:KEY=VALUE' per item, in listing order
-    ali = P.func(QA, "action_list_items")
-    J = F.make_interp(P)
-    cpj = InstV(P.cls(CP, "ConfigParser"))
-    cpj.attrs["_config_parser"] = PyObjV(RawModel(sections, defaults))
-    J.run(ali, [cpj])
-    out = W.out_tree(J.stdout())
-    text = out.text if isinstance(out, SLit) else None
-    want_text = "".join("%s=%s\n" % (it.items[0].v, it.items[1].v) for it in items.items
-                        if isinstance(it.items[0], Const) and isinstance(it.items[1], Const))
-    chk.ob("C14.O4", "--list-items prints 'SECTION:KEY=VALUE' lines, one per item", text is not None and text == want_text, site=ali.site(),
-           found=(text or repr(out))[:200], expect=want_text[:200], key="C14.O4|printed-format")
     # --item-value
-    iv = P.func(QA, "_item_value")
-    cfg = P.cls("atsim.potentials.config._common", "ConfigurationException")
     for label, want in (("Pair:A-B", "as.zero"), ("Table-Form:t:x", "1 2"), ("Variables:q", "1.0")):
-        try:
-            r = I.run(iv, [cp, Const(label)])
-            got = r.v if isinstance(r, Const) else repr(r)
-        except RaiseSignal as e:
-            got = "raise %r" % (e.exc,)
-        chk.ob("C14.O4", "--item-value %s returns %r" % (label, want), got == want, site=iv.site(), found=got, expect=want,
-               key="C14.O4|item-value|%s" % label)
+        r, printed, out = _potable_query(P, text, item_value=ListV([Const(label)], "list"))
+        got = printed if (r.raised is None and not r.parser.errors) else "fails: %r %r" % (r.raised, r.parser.errors)
+        chk.ob("C14.O4", "--item-value %s prints %r" % (label, want), got == want + "\n", site=site, found=got if got is not None else out,
+               expect=want, key="C14.O4|item-value|%s" % label)
     for label in ("Pair:nope", "Nope:k", "nocolon"):
-        try:
-            r = I.run(iv, [cp, Const(label)])
-            got = repr(r)
-            ok = False
-        except RaiseSignal as e:
-            ok = isinstance(e.exc, ExcV) and isinstance(e.exc.cls, ClassV) and e.exc.cls.ci.is_subclass_of(cfg)
-            got = e.exc
-        chk.ob("C14.O4", "--item-value %s (no such item) is a configuration error" % label, ok, site=iv.site(), found=got,
-               expect="ConfigurationException", key="C14.O4|item-value-missing|%s" % label)
+        r, printed, out = _potable_query(P, text, item_value=ListV([Const(label)], "list"))
+        ok = r.raised is None and len(r.parser.errors) == 1 and "configuration error" in repr(r.parser.errors[0])
+        chk.ob("C14.O4", "--item-value %s (no such item) ends in a configuration error" % label, ok, site=site,
+               found=(r.raised, r.parser.errors, printed), expect="configuration error", key="C14.O4|item-value-missing|%s" % label)
